@@ -65,7 +65,8 @@ class Worker:
 
     def start(self):
         env = dict(os.environ)
-        env["PYTHONPATH"] = VERIF
+        # VERIF_REPO (development only): evaluate a scratch checkout of verde instead of /repo
+        env["PYTHONPATH"] = os.pathsep.join([p for p in (os.environ.get("VERIF_REPO"), VERIF) if p])
         env["FATIANDO_VERDE_VERIF"] = "1"
         env.setdefault("OMP_NUM_THREADS", "1")
         env.setdefault("OPENBLAS_NUM_THREADS", "1")
@@ -202,6 +203,8 @@ def main(argv):
     seed = int(os.environ.get("VERIF_SEED", "0") or 0)
     verbose = os.environ.get("VERIF_QUIET", "") == ""
     sys.path.insert(0, VERIF)
+    if os.environ.get("VERIF_REPO"):
+        sys.path.insert(0, os.environ["VERIF_REPO"])
     os.environ["FATIANDO_VERDE_VERIF"] = "1"
     t0 = time.time()
     from symx import harness as H
